@@ -398,6 +398,11 @@ func (n NaturalLanguageValues) MarshalJSON() ([]byte, error) {
 		if !empty {
 			b.Write([]byte{','})
 		}
+		if val.Ref == NilLangRef {
+			// NOTE(marius): a member of a language map needs a name, the untagged value is stored under the nil language tag
+			stringBytes(&b, []byte(val.Ref), false)
+			b.Write([]byte{':'})
+		}
 		if v, err := val.MarshalJSON(); err == nil && len(v) > 0 {
 			l, err := b.Write(v)
 			if err == nil && l > 0 {
